@@ -8,7 +8,8 @@ package loader
 // settings (none / type with a factory / type with no factory). 15 x 96 x 96 = 138240
 // configurations, built with the real build() and the real config.Provider, fakes elsewhere.
 // Oracle written from the property text:
-//   * one provider per secret configuration that has at least one user, in configuration order;
+//   * one provider per secret configuration that has at least one user, in configuration order,
+//     and each hands out ITS OWN keychain entry when a connection arrives (after build() returned);
 //   * a provider's user set holds exactly the users whose scopes name it — minus users whose
 //     authenticator factory failed — and the user copy handed to the authorizer factory is localized to exactly that scope;
 //   * a user with a working factory gets that factory's handler for that user name; a user
@@ -38,7 +39,7 @@ func (tqvLog) Debugf(ctx context.Context, format string, args ...interface{}) {}
 type tqvKeychain struct{}
 
 func (tqvKeychain) Add(k config.Keychain) func(context.Context, string) ([]byte, error) {
-	return func(context.Context, string) ([]byte, error) { return []byte("k"), nil }
+	return func(context.Context, string) ([]byte, error) { return []byte(k.Key), nil }
 }
 
 type tqvScopeHandler struct{ cp config.Provider }
@@ -52,18 +53,21 @@ func (tqvHandlerFactory) New(ctx context.Context, cp config.Provider, options ma
 }
 
 type tqvSecretProvider struct {
-	name string
-	h    tq.Handler
+	name   string
+	h      tq.Handler
+	secret func(context.Context, string) ([]byte, error)
 }
 
 func (s tqvSecretProvider) Get(ctx context.Context, remote net.Addr) ([]byte, tq.Handler, error) {
-	return []byte("k"), s.h, nil
+	// like the real providers: the key is resolved when a connection arrives, not at build time
+	k, err := s.secret(ctx, "")
+	return k, s.h, err
 }
 
 type tqvSecretProviderFactory struct{}
 
 func (tqvSecretProviderFactory) New(ctx context.Context, sc config.SecretConfig, h tq.Handler, secret func(context.Context, string) ([]byte, error)) tq.SecretProvider {
-	return tqvSecretProvider{name: sc.Name, h: h}
+	return tqvSecretProvider{name: sc.Name, h: h, secret: secret}
 }
 
 type tqvAuthorizerFactory struct{}
@@ -173,7 +177,7 @@ func TestTqvWitness(t *testing.T) {
 						accts := map[string]int{"u1": a1, "u2": a2}
 						sc := config.ServerConfig{Users: users}
 						for _, s := range order {
-							sc.Secrets = append(sc.Secrets, config.SecretConfig{Name: s, Type: config.PREFIX, Handler: config.Handler{Type: config.START}})
+							sc.Secrets = append(sc.Secrets, config.SecretConfig{Name: s, Secret: config.Keychain{Group: "g", Key: "key-of-" + s}, Type: config.PREFIX, Handler: config.Handler{Type: config.START}})
 						}
 						got := l.build(sc)
 						// expected providers, in order
@@ -198,6 +202,9 @@ func TestTqvWitness(t *testing.T) {
 							if p.name != want[i] {
 								note("secrets %v: provider %d is %s, want %s", order, i, p.name, want[i])
 								continue
+							}
+							if k, _, err := sp.Get(ctx, nil); err != nil || string(k) != "key-of-"+p.name {
+								note("secrets %v: scope %s hands out key %q (err %v) when a connection arrives, want its own key %q", order, p.name, k, err, "key-of-"+p.name)
 							}
 							cp := p.h.(*tqvScopeHandler).cp
 							for _, u := range users {
